@@ -311,6 +311,6 @@ def is_separable(state: np.ndarray, dim: None | int | list[int] = None, level: i
                 return False
 
     # The search for symmetric extensions.
-    if any(has_symmetric_extension(state, level) for _ in range(1, level)):
+    if any(has_symmetric_extension(state, level, dim) for _ in range(1, level)):
         return True
     return False
